@@ -15,11 +15,13 @@ require (
 	github.com/gugemichael/nimo4go v0.0.0-20190904073057-32795d80f83a // indirect
 	github.com/matttproud/golang_protobuf_extensions v1.0.2-0.20181231171920-c182affec369 // indirect
 	github.com/nightlyone/lockfile v0.0.0-20180618180623-0ad87eef1443 // indirect
+	github.com/pkg/errors v0.8.0 // indirect
 	github.com/prometheus/client_golang v1.0.1-0.20190617182757-3d8379da8fc2 // indirect
 	github.com/prometheus/client_model v0.0.0-20190129233127-fd36f4220a90 // indirect
 	github.com/prometheus/common v0.6.0 // indirect
 	github.com/prometheus/procfs v0.0.3-0.20190614152826-90b65b633401 // indirect
 	github.com/vinllen/redis-go-cluster v1.0.1-0.20200724054240-c957918bbc61 // indirect
+	golang.org/x/sync v0.0.0-20181221193216-37e7f081c4d4 // indirect
 	gopkg.in/natefinch/lumberjack.v2 v2.0.0-20170531160350-a96e63847dc3 // indirect
 )
 
